@@ -1,8 +1,49 @@
 /- Property C04: the property theorems (and nothing else). -/
-import Frugal.Proofs.EncodeRefine
+import Frugal.Proofs.SizeExact
+import Frugal.Proofs.BufferLemmas
 import Frugal.Props.Instances
 namespace Frugal.C04
 open Frugal
+
 theorem sizes_and_headers : Generated.params.validSizes = true ∧ Generated.params.validHeaders = true :=
   ⟨Instances.valid_sizes, Instances.valid_headers⟩
+
+/-- EncodedSize (the separate walk with its precomputed fixed part and count × width shortcuts)
+    returns exactly the number of bytes the encoder writes, for every accepted schema and every
+    value.  The model takes a value, so "by struct or by pointer" is the same statement. -/
+theorem size_exact (S : Schema) (hS : S.ok = true) (sid : Nat) (v : Val)
+    (ht : hasTy S (.strct sid) v = true) :
+    sizeM Generated.params S sid v = (appendM Generated.params S sid v).length := by
+  unfold sizeM appendM
+  rw [sizeFunc_eq Instances.params_valid S hS v (.strct sid) rfl ht rfl,
+      appendAny_eq Instances.params_valid S hS v (.strct sid) rfl ht]
+
+/-- the same for any nested struct / list / map value (e.g. a nil *T argument: one STOP byte) -/
+theorem size_exact_nested (S : Schema) (hS : S.ok = true) (ty : Ty) (v : Val) (hok : ty.ok = true)
+    (ht : hasTy S ty v = true) (hs : specSimple ty.tt = false) :
+    sizeFunc Generated.params S ty v = (appendAny Generated.params S ty v).length := by
+  rw [sizeFunc_eq Instances.params_valid S hS v ty hok ht hs,
+      appendAny_eq Instances.params_valid S hS v ty hok ht]
+
+/-- buffer long enough: success, n = the encoded length, bytes after n untouched -/
+theorem buffer_fits (back : Bytes) (len : Nat) (chunks : List Bytes) (hfit : chunks.flatten.length ≤ len) :
+    encodeObjectM back len chunks =
+      (chunks.flatten.length, true, chunks.flatten ++ back.drop chunks.flatten.length) :=
+  encodeObject_fits back len chunks hfit
+
+/-- buffer too short: an error, n = 0 -/
+theorem buffer_short (back : Bytes) (len : Nat) (chunks : List Bytes) (hs : len < chunks.flatten.length) :
+    (encodeObjectM back len chunks).1 = 0 ∧ (encodeObjectM back len chunks).2.1 = false :=
+  encodeObject_short back len chunks hs
+
+/-- in both cases nothing behind len(buf) is written -/
+theorem buffer_tail_untouched (back : Bytes) (len : Nat) (chunks : List Bytes) :
+    (encodeObjectM back len chunks).2.2.drop len = back.drop len :=
+  encodeObject_tail_untouched back len chunks
+
+/-- frugal.go really is `Append(buf[:0:len(buf)], v)` + `len(ret) > len(buf)` (regenerated fact) -/
+theorem code_follows_buffer_model : Generated.facts.bufferContract = true := Instances.facts_bufferContract
+
+example : let S : Schema := [{ fields := [{ id := 1, req := .optional, ty := .map (.base .string) (.ptr (.strct 0)) }] }]
+    S.ok = true ∧ hasTy S (.strct 0) (.st [.mp false [(.str [65], .nilp)]] []) = true := by decide
 end Frugal.C04
